@@ -179,6 +179,9 @@ func decodeStruct(p Paragraph, into reflect.Value) error {
 			if fieldType.Type == paragraphType {
 				/* Neat! Let's give the struct this data */
 				field.Set(reflect.ValueOf(p))
+				/* and that's it - a field called `Paragraph` in the
+				 * document is not meant for this member */
+				continue
 			} else {
 				/* Otherwise, we're going to avoid doing more maths on it */
 				continue
